@@ -177,8 +177,12 @@ func readOpen(r io.Reader) (*openResult, error) {
 	if hdr.Marker1 != 0xffffffffffffffff || hdr.Marker2 != 0xffffffffffffffff {
 		return nil, fmt.Errorf("synchronization error, incorrect header marker")
 	}
+	lr := &io.LimitedReader{
+		R: r,
+		N: int64(hdr.Len) - 19,
+	}
 	if hdr.Type == 3 {
-		return nil, readNotification(r)
+		return nil, readNotification(lr)
 	}
 	if hdr.Type != 1 {
 		return nil, fmt.Errorf("message type is not OPEN, got %d, want 1", hdr.Type)
@@ -187,10 +191,6 @@ func readOpen(r io.Reader) (*openResult, error) {
 		return nil, fmt.Errorf("message length %d too small to be OPEN", hdr.Len)
 	}
 
-	lr := &io.LimitedReader{
-		R: r,
-		N: int64(hdr.Len) - 19,
-	}
 	open := struct {
 		Version  uint8
 		ASN16    uint16
